@@ -259,6 +259,28 @@ def check_compile_require(chk, thorough):
                 rt_table = dict(getattr(m2, "_hy_macros", {}))
             except Exception as ex:
                 rt_table = {"<raised>": type(ex).__name__ + ": " + str(ex)[:200]}
+            if rng.random() < 0.35:
+                # the same request twice, the first copy in a branch that does not run: the live copy must still
+                # carry its own run-time call
+                wrap = rng.choice(g.DEAD)
+                src2 = (wrap % e["form"]) + " " + e["form"]
+                m3 = types.ModuleType(this)
+                sys.modules[this] = m3
+                chk.count("require-entry:repeated-with-dead-first-copy")
+                try:
+                    tree2 = hy_compile(hy.read_many(src2), m3)
+                    ct2 = dict(getattr(m3, "_hy_macros", {}))
+                    m4 = types.ModuleType(this)
+                    sys.modules[this] = m4
+                    exec(compile(tree2, "<c15>", "exec"), m4.__dict__)
+                    rt2 = dict(getattr(m4, "_hy_macros", {}))
+                except Exception as ex:
+                    ct2, rt2 = ct_table, {"<raised>": type(ex).__name__ + ": " + str(ex)[:200]}
+                if {k: id(v) for k, v in ct2.items()} != {k: id(v) for k, v in rt2.items()}:
+                    chk.fail("runtime-require-differs:repeated-request", {"forms": src2, "module": this, "source": absn},
+                             {"compile_time": sorted(ct2), "run_time_only": sorted(rt2) if "<raised>" not in rt2 else rt2},
+                             "the same _hy_macros keys and objects",
+                             "hy_compile the forms in a module named %s, then exec the result in a new module" % this)
             if {k: id(v) for k, v in ct_table.items()} != {k: id(v) for k, v in rt_table.items()}:
                 chk.fail("runtime-require-differs", {"form": e["form"], "module": this, "source": absn,
                                                      "source_macros": sorted(macros)},
@@ -422,7 +444,7 @@ def check_histories(chk, n_cases):
     root = cc.mktmp("c15")
     try:
         cache = cc.warm_cache(root)
-        cases = [g.gen_case(chk.rng, i) for i in range(n_cases)]
+        cases = [g.gen_case(chk.rng, i, dead_prob=1.0 if i < 3 else 0.3) for i in range(n_cases)]
         outs = cc.map_pool(lambda c: g.run_history(c, root, cache), cases)
         env = cc.sub_env(pycache_prefix=cache)
         ejobs = ext_oracle_jobs(root, env)
